@@ -23,7 +23,7 @@ SUM_MODES = ("sum2", "rsum2", "sum1", "rsum1")
 
 
 def tol_of(dtype):
-    return 2e-3 if str(np.dtype(dtype)) in SINGLE else 1e-7
+    return 2e-3 if str(np.dtype(dtype)) in SINGLE else 1e-6
 
 
 # ----------------------------------------------------------------------------- inputs
@@ -179,7 +179,8 @@ def trunc_grid(maxval, maxlen, cutgrid, maxbonds, renorms):
 def snap_tols(dtype):
     """(atol, rtol) of the projection onto the integer lattice.  Relative part small enough that
     sums of squares of a few hundred still have an unambiguous nearest integer."""
-    return (1e-3, 1e-4) if str(np.dtype(dtype)) in SINGLE else (1e-7, 1e-9)
+    # double: a Gram-matrix based SVD returns exact zeros as ~sqrt(eps) * s_max ~ 1e-7 ("some loss of precision")
+    return (1e-3, 1e-4) if str(np.dtype(dtype)) in SINGLE else (1e-5, 1e-7)
 
 
 def _snap(x, dtype):
